@@ -385,6 +385,10 @@ def one_case(sh, case_seed, tracer):
         for c in t.columns:
             if c.default is not None and c.default.kind == 'str' and c.default.value in names:
                 c.default = None
+    tnames = {t.name for t in doc.tables}
+    for e in doc.enums:
+        if e.name in tnames:
+            e.name = e.name + 'enq'       # one owner per name token (an enum may be called like a table; not in this check)
     seen_sn = set()
     for st in doc.stickies:
         if st.name in seen_sn:
